@@ -94,8 +94,58 @@ def apply_macro_asserts(text, counts):
     return ''.join(out)
 
 
+def apply_method_min(text, counts):
+    """R13: RECEIVER.min(ARG) -> vmin(RECEIVER, ARG)  (Ord::min is a provided trait method Verus has
+    no specification hook for; vmin is its definition).  RECEIVER is the maximal postfix chain of
+    identifiers, field/method accesses, paths and balanced (..)/[..]/<..> groups before `.min(`."""
+    i = 0
+    while True:
+        m = rsx.mask(text)
+        k = text.find('.min(', i)
+        if k < 0:
+            return text
+        if m[k] != 'c':
+            i = k + 1
+            continue
+        # receiver: scan backwards
+        j = k
+        while j > 0:
+            ch = text[j - 1]
+            if ch.isalnum() or ch == '_' or ch == '.':
+                j -= 1
+            elif ch == ':' and j > 1 and text[j - 2] == ':':
+                j -= 2
+            elif ch in ')]>':
+                op = {')': '(', ']': '[', '>': '<'}[ch]
+                depth, q = 0, j - 1
+                while q >= 0:
+                    if text[q] == ch:
+                        depth += 1
+                    elif text[q] == op:
+                        depth -= 1
+                        if depth == 0:
+                            break
+                    q -= 1
+                if q < 0:
+                    break
+                j = q
+            else:
+                break
+        recv = text[j:k]
+        if not recv.strip() or recv.strip()[0] == '.':
+            i = k + 1
+            continue
+        op = k + len('.min')
+        cl = rsx.match_brace(text, m, op)
+        arg = text[op + 1:cl]
+        text = text[:j] + 'vmin(' + recv + ', ' + arg + ')' + text[cl + 1:]
+        counts['R13'] = counts.get('R13', 0) + 1
+        i = j + 5
+
+
 def apply_global(text, counts, extra=()):
     text = apply_macro_asserts(text, counts)
+    text = apply_method_min(text, counts)
     for rid, pat, rep, _ in list(GLOBAL_REWRITES):
         text, n = re.subn(pat, rep, text)
         if n:
@@ -454,6 +504,17 @@ class Unit:
         body = '\n'.join(l for l in body.split('\n') if not ATTR_RE.match(l))
         sig = apply_global(sig, self.rewrites)
         body = apply_global(body, self.rewrites)
+        if opts.get('asserts', '').startswith('guardif:'):
+            # as R3g, and additionally a panic-freedom obligation whenever the ghost condition holds
+            gexpr = opts['asserts'][len('guardif:'):]
+            body, ng = re.subn(r'\bvassert\(', 'vguardif(Ghost(%s), ' % gexpr, body)
+            self.rewrites['R3g'] = self.rewrites.get('R3g', 0) + ng
+        if opts.get('asserts') == 'guard':
+            # the function's own assert!s are its documented bound check (panic = safe refusal):
+            # model them as `returns only if cond` instead of as a panic-freedom obligation, so the
+            # postcondition is proved FROM the check and a weakened check fails the postcondition
+            body, ng = re.subn(r'\bvassert\(', 'vguard(', body)
+            self.rewrites['R3g'] = self.rewrites.get('R3g', 0) + ng
         for a, b in subs:
             n_tot = 0
             sig, n = re.subn(a, b, sig)
